@@ -52,11 +52,12 @@ Exec(block, envs, mode) ==
     ELSE LET first == ExecStmt(Head(block), envs, mode)
          IN Then(first, Exec(Tail(block), first.norm, mode))
 
-\* environments that can stand at the head of a loop: the least fixpoint of one more iteration
+\* environments that can stand at the head of a loop: the least fixpoint of one more iteration.  Returns the
+\* fixpoint together with the outcome of the body started from it (so that the body is not executed once more).
 LoopHeads(body, heads, mode, fuel) ==
     LET b == Exec(body, heads, mode)
         next == heads \cup b.norm \cup b.cont
-    IN IF next = heads \/ fuel = 0 THEN heads ELSE LoopHeads(body, next, mode, fuel - 1)
+    IN IF next = heads \/ fuel = 0 THEN [heads |-> heads, b |-> b] ELSE LoopHeads(body, next, mode, fuel - 1)
 
 \* which handlers may run for an exception raised in the try body
 ExecHandlers(handlers, envs, mode, idx) ==
@@ -82,8 +83,9 @@ ExecStmt(s, envs, mode) ==
             IN Merge(Merge(b, o), Out({}, {}, {}, {}, envs, {}))            \* cond() is a call
       [] s.k \in {"while", "for"} ->
             LET infinite == s.k = "while" /\ s.true /\ mode = "strict"
-                heads == LoopHeads(s.body, envs, mode, 12)
-                b == Exec(s.body, heads, mode)
+                fix == LoopHeads(s.body, envs, mode, 12)
+                heads == fix.heads
+                b == fix.b
                 exits == IF infinite THEN {} ELSE heads                     \* condition false / iterator exhausted
                 o == Exec(s.orelse, exits, mode)
                 condraise == IF s.k = "while" /\ s.true THEN pre ELSE heads  \* cond() / it() / next() are calls
